@@ -421,7 +421,7 @@ impl<'u> Update<'u> {
 //@+ sub=/cfg!(test)=>cfg_test();;DateTime::UNIX_EPOCH=>DateTime::unix_epoch();;format!("Last updated at {now} from mp-filter expression {filter_expr}")=>format_comment(&now, filter_expr)/
 //@sig pub fn policy_stmt_elem<'a>(&self, writer: &'a mut Writer) -> (res: ElementWriter<'a>)
 //@contract
-        ensures res.name@ == "policy-statement"@, res.attrs@ == policy_attrs(*self),                    // OBL:C02.policy.delete_or_comment_attr
+        ensures res.name@ == "policy-statement"@, res.attrs@ == policy_attrs(*self),                    // OBL:C02+C03.policy.delete_or_comment_attr
                 res.w.nodes@ == old(writer).nodes@, final(writer).nodes@ == final(res.w).nodes@,
 //@end
 //@extract id=update_write_xml file=junos-agent/src/policies/load.rs impl=/impl WriteXml for Update<'_>/ fn=write_xml rules=R1,R7,R17 r7map=result
